@@ -326,7 +326,9 @@ func stringContents(c *engine.Ctx) {
 	for mi := range ms {
 		for _, f := range versions {
 			mi, f := mi, f
-			c.Case(func() any { return map[string]any{"attribute": "document.serial-number", "value": ms[mi], "format": string(f)} }, func(t *engine.T) *engine.Violation {
+			c.Case(func() any {
+				return map[string]any{"attribute": "document.serial-number", "value": ms[mi], "format": string(f)}
+			}, func(t *engine.T) *engine.Violation {
 				d := docOf(two())
 				d.Metadata.Id = ms[mi]
 				if v := RoundTrip(t, d, f); v != nil {
